@@ -87,6 +87,9 @@ type engine struct {
 
 	distinctDocs     int64
 	mismatchingCases int64
+	capped           bool
+	sampled          map[string]bool
+	samples          []map[string]any
 }
 
 func (e *engine) stat(g string) *groupStat {
@@ -166,6 +169,13 @@ func (e *engine) evaluate(k kase) {
 		e.mismatches = append(e.mismatches, more...)
 		e.mismatchingCases++
 	}
+	// written-out cases for the evidence: the first of every (group kind, oracle class, outcome)
+	sk := strings.SplitN(k.group, "(", 2)[0] + "/" + class + "/" + map[bool]string{true: "accepted", false: "refused"}[res.accepted]
+	if !e.sampled[sk] && len(e.samples) < 40 {
+		e.sampled[sk] = true
+		e.samples = append(e.samples, map[string]any{"part": "A", "case": "[" + k.group + "] " + k.desc, "config": k.doc, "oracle": class,
+			"oracle_reasons": append(append([]string{}, j.invalid...), j.either...), "accepted": res.accepted, "error": strings.ReplaceAll(res.err, e.tmp, "@TMP@")})
+	}
 	e.mu.Unlock()
 }
 
@@ -211,15 +221,14 @@ func keyShape(diff string) string {
 // runGroup evaluates the cases of a generator that belong to this shard
 // (case index modulo shard count), sequentially; shards are processes.
 func (e *engine) runGroup(name string, smoke int, gen func(s *sink)) {
-	capped := false
 	snk := &sink{}
 	snk.own = func() bool {
-		if capped {
+		if e.capped {
 			return false
 		}
 		if e.next%1024 == 0 && time.Now().After(e.deadline) {
-			capped = true
-			e.caps = append(e.caps, fmt.Sprintf("Part A time budget reached inside group %s after %d cases", name, e.next))
+			e.capped = true
+			e.caps = append(e.caps, fmt.Sprintf("Part A time budget reached inside group %s after %d cases; later groups not run", name, e.next))
 			return false
 		}
 		if e.next%int64(e.nshards) != int64(e.shard) {
@@ -249,6 +258,7 @@ type shardReport struct {
 	Mismatches []shardMismatch       `json:"mismatches"`
 	Smoke      []shardCase           `json:"smoke"`
 	HashFile   string                `json:"hashFile"`
+	Samples    []map[string]any      `json:"samples"`
 }
 
 type shardMismatch struct {
@@ -268,7 +278,7 @@ type shardCase struct {
 // shardMain runs Part A for one shard and prints its report.
 func shardMain(c *harness.Check, spec, tmp string, budget time.Duration) {
 	runtime.GOMAXPROCS(2)
-	e := &engine{c: c, tmp: tmp, env: loadEnv(tmp), logger: zap.NewNop(), stats: map[string]*groupStat{}, reasons: map[string]int64{}}
+	e := &engine{c: c, tmp: tmp, env: loadEnv(tmp), logger: zap.NewNop(), stats: map[string]*groupStat{}, reasons: map[string]int64{}, sampled: map[string]bool{}}
 	fmt.Sscanf(spec, "%d/%d", &e.shard, &e.nshards)
 	if e.nshards < 1 {
 		harness.Fatal("bad shard spec %q", spec)
@@ -280,7 +290,7 @@ func shardMain(c *harness.Check, spec, tmp string, budget time.Duration) {
 	}
 	e.deadline = time.Now().Add(budget)
 	partA(e)
-	rep := shardReport{Next: e.next, Order: e.order, Stats: e.stats, Reasons: e.reasons, Caps: e.caps}
+	rep := shardReport{Next: e.next, Order: e.order, Stats: e.stats, Reasons: e.reasons, Caps: e.caps, Samples: e.samples}
 	// mismatches of one defect repeat thousands of times: keep the first few per signature
 	perSig := map[string]int{}
 	sort.Slice(e.mismatches, func(i, k int) bool { return e.mismatches[i].idx < e.mismatches[k].idx })
@@ -344,6 +354,15 @@ func runShards(e *engine, budget time.Duration) (mismatching int64) {
 		if i == 0 {
 			e.order = r.Order
 			e.next = r.Next
+			// a few written-out cases: one accepted-valid, one refused-invalid, one either
+			want := map[string]bool{"valid/true": true, "invalid/false": true, "either/true": true, "either/false": true}
+			for _, sm := range r.Samples {
+				k := fmt.Sprintf("%v/%v", sm["oracle"], sm["accepted"])
+				if want[k] {
+					delete(want, k)
+					e.c.Sample(sm)
+				}
+			}
 		}
 		for g, s := range r.Stats {
 			if g == "_" {
@@ -428,7 +447,7 @@ func main() {
 		cleanup()
 		harness.Fatal("fixtures: %v", err)
 	}
-	e := &engine{c: c, tmp: tmp, env: loadEnv(tmp), logger: zap.NewNop(), stats: map[string]*groupStat{}, reasons: map[string]int64{}, nshards: 1}
+	e := &engine{c: c, tmp: tmp, env: loadEnv(tmp), logger: zap.NewNop(), stats: map[string]*groupStat{}, reasons: map[string]int64{}, nshards: 1, sampled: map[string]bool{}}
 
 	if os.Getenv("C18_BASE") != "" {
 		for _, d := range []J{richDoc(m128, false), richDoc("socks5", true)} {
@@ -463,7 +482,7 @@ func main() {
 	}
 
 	t0 := time.Now()
-	mismatching := runShards(e, harness.Pick(c, 150*time.Second, 60*time.Minute))
+	mismatching := runShards(e, harness.Pick(c, 400*time.Second, 90*time.Minute))
 	partATime := time.Since(t0)
 
 	sort.Slice(e.mismatches, func(i, k int) bool { return e.mismatches[i].idx < e.mismatches[k].idx })
@@ -614,6 +633,64 @@ func partA(e *engine) {
 		}
 	})
 
+	// A2b: sizes far beyond anything sensible.  The documentation gives no upper
+	// bounds, so acceptance is open; what is demanded is that whatever is accepted
+	// survives traffic.  Each huge letter has a large-but-sane control next to it.
+	e.runGroup("unbounded-numerics", 1, func(s *sink) {
+		const huge = int64(1) << 62
+		put := func(desc string, mk func() J) {
+			if s.own() {
+				s.put(mk(), desc)
+			}
+		}
+		for _, v := range []int64{65536, huge} {
+			for _, sp := range []string{"socks5", m128} {
+				put(fmt.Sprintf("server=%s udpListeners.0.sendChannelCapacity=%d", sp, v), func() J {
+					d := baseDoc(baseOpts{sp: sp, cp: "direct", sTCP: true, sUDP: true, cTCP: true, cUDP: true})
+					setPath(d, "servers.0.udpListeners.0.sendChannelCapacity", v)
+					return d
+				})
+			}
+			put(fmt.Sprintf("server=socks5 legacy udpSendChannelCapacity=%d", v), func() J {
+				d := baseDoc(baseOpts{sp: "socks5", cp: "direct", legacy: true, sTCP: true, sUDP: true, cTCP: true, cUDP: true})
+				setPath(d, "servers.0.udpSendChannelCapacity", v)
+				return d
+			})
+			put(fmt.Sprintf("server=socks5 client=%s tcpListeners.0.initialPayloadWaitBufferSize=%d", m128, v), func() J {
+				d := baseDoc(baseOpts{sp: "socks5", cp: m128, sTCP: true, sUDP: true, cTCP: true, cUDP: true})
+				setPath(d, "servers.0.tcpListeners.0.initialPayloadWaitBufferSize", v)
+				return d
+			})
+			put(fmt.Sprintf("server=%s slidingWindowFilterSize=%d", m128, v), func() J {
+				d := baseDoc(baseOpts{sp: m128, cp: "direct", sTCP: true, sUDP: true, cTCP: true, cUDP: true})
+				setPath(d, "servers.0.slidingWindowFilterSize", v)
+				return d
+			})
+			put(fmt.Sprintf("client=%s slidingWindowFilterSize=%d", m128, v), func() J {
+				d := baseDoc(baseOpts{sp: "socks5", cp: m128, sTCP: true, sUDP: true, cTCP: true, cUDP: true})
+				setPath(d, "clients.0.slidingWindowFilterSize", v)
+				return d
+			})
+			put(fmt.Sprintf("resolver cacheSize=%d", v), func() J {
+				d := richDoc("socks5", false)
+				setPath(d, "dns.0.cacheSize", v)
+				return d
+			})
+		}
+		for _, v := range []int64{65535, 1 << 40} {
+			put(fmt.Sprintf("server=socks5 mtu=%d", v), func() J {
+				d := baseDoc(baseOpts{sp: "socks5", cp: "direct", sTCP: true, sUDP: true, cTCP: true, cUDP: true})
+				setPath(d, "servers.0.mtu", v)
+				return d
+			})
+			put(fmt.Sprintf("client=direct mtu=%d", v), func() J {
+				d := baseDoc(baseOpts{sp: "socks5", cp: "direct", sTCP: true, sUDP: true, cTCP: true, cUDP: true})
+				setPath(d, "clients.0.mtu", v)
+				return d
+			})
+		}
+	})
+
 	variants := []struct {
 		sp     string
 		legacy bool
@@ -713,11 +790,20 @@ func partA(e *engine) {
 	for vi, v := range variants[:nv] {
 		axes := richAxes(v.legacy)
 		base := func() J { return richDoc(v.sp, v.legacy) }
-		level := 0
-		if vi < 2 {
-			level = 2
+		_ = vi
+		e.runGroup(fmt.Sprintf("pairs(%s,legacy=%v)", v.sp, v.legacy), 0, func(s *sink) { tuples(base, axes, 2, s) })
+	}
+	// A5b (thorough): the pairs of traffic-relevant fields once more, as the deep smoke set
+	if thorough {
+		for _, v := range variants[:2] {
+			all := richAxes(v.legacy)
+			var rt []axis
+			for _, i := range sectionAxes(all, "srv", "srv-udp", "srv-udp-x", "srv-tcp", "srv-tcp-x", "srv-ss", "srv-ss-x", "srv-direct", "client", "client-ss") {
+				rt = append(rt, all[i])
+			}
+			base := func() J { return richDoc(v.sp, v.legacy) }
+			e.runGroup(fmt.Sprintf("traffic-field-pairs(%s,legacy=%v)", v.sp, v.legacy), 2, func(s *sink) { tuples(base, rt, 2, s) })
 		}
-		e.runGroup(fmt.Sprintf("pairs(%s,legacy=%v)", v.sp, v.legacy), level, func(s *sink) { tuples(base, axes, 2, s) })
 	}
 	// A6 (thorough): all triples
 	if thorough {
@@ -845,7 +931,7 @@ func partC(e *engine) {
 		seen[r] = true
 		set = append(set, k)
 	}
-	deadline := time.Now().Add(harness.Pick(c, 240*time.Second, 90*time.Minute))
+	deadline := time.Now().Add(harness.Pick(c, 600*time.Second, 120*time.Minute))
 	outs := make([]*smokeOutcome, len(set))
 	var wg sync.WaitGroup
 	sem := make(chan struct{}, harness.Workers())
